@@ -311,6 +311,7 @@ struct world
     // ---- what the property leaves open: the order among timers with EQUAL deadlines (see tie_step) ----
     bool tainted = false; // the outcome of this case depends on the order inside a tie: result = "tie-dependent" until the next reset
     bool tdirty = false;  // a setter op hit a planned timer / an exec used setters in callbacks: the list may be unsorted
+    bool hz = false;      // reset U|I|V (32-bit instances, histories outside the window): "deadline order" may be undefined
     struct tiegrp
     {
         bool open = false;
@@ -384,13 +385,33 @@ static bool any_tie()
         if (t.is_planned((int)i) && !seen.insert(t.finish((int)i)).second) return true;
     return false;
 }
+// histories outside the window precondition: the comparison of deadlines by the sign of their difference is a strict
+// total order on distinct deadlines only while the pending deadlines lie within half the counter range of each other.
+// When it is not (two deadlines exactly 2^31 apart, or a cycle) where plan() inserts depends on how its scan is written.
+static bool order_bad()
+{
+    iface &t = *W.t;
+    std::vector<uint32_t> ds;
+    for (size_t i = 0; i < t.n(); i++)
+        if (t.is_planned((int)i)) ds.push_back((uint32_t)t.finish((int)i));
+    auto e = [](uint32_t a, uint32_t b) { return (int32_t)(uint32_t)(a - b) < 0; };
+    for (uint32_t a : ds)
+        for (uint32_t b : ds)
+        {
+            if (a != b && e(a, b) == e(b, a)) return true;
+            for (uint32_t c : ds)
+                if (e(a, b) && e(b, c) && !e(a, c)) return true;
+        }
+    return false;
+}
+static bool unordered_state() { return (W.tdirty && any_tie()) || (W.hz && order_bad()); }
 static void tie_step(int id, i64 raw, i64 d, int myk, i64 now)
 {
     world &w = W;
     iface &t = *w.t;
     auto &g = w.tg;
     if (w.tainted) return;
-    if (w.tdirty && any_tie()) { w.tainted = true; return; }
+    if (unordered_state()) { w.tainted = true; return; }
     if (g.open && raw != g.d) { w.tainted = true; return; } // a timer with another deadline runs before every member of the tie has run
     std::set<int> S;
     for (size_t i = 0; i < t.n(); i++)
@@ -398,6 +419,9 @@ static void tie_step(int id, i64 raw, i64 d, int myk, i64 now)
     S.insert(id);
     // the timer with the unarmed delegate runs unseen: it belongs to the tie when the reference has it at this deadline
     if (w.unarmed >= 0 && w.ref.pending(w.unarmed) && w.ref.pend[w.unarmed].first == d) S.insert(w.unarmed);
+    // outside the window a tie is never harmless: the states INSIDE the group differ with the order, and with them
+    // whether the deadlines are still ordered
+    if (w.hz && S.size() >= 2) { w.tainted = true; return; }
     if (g.open) g.G.insert(S.begin(), S.end());
     else if (S.size() >= 2)
     {
@@ -590,6 +614,7 @@ static void drop_world()
     W.dirty = false;
     W.tainted = false;
     W.tdirty = false;
+    W.hz = false;
     W.tg = world::tiegrp();
     W.last_fire.clear();
     W.anch.clear();
@@ -928,10 +953,11 @@ static void run_op(const std::vector<std::string> &w, const std::string &line, h
 {
     const std::string &op = w[0];
     bool mgr = mgr_ops.count(op) && W.t && !D_MODE;
-    bool tie_before = false;
+    bool tie_before = false, ord_before = false;
     if (mgr)
     {
         tie_before = any_tie();
+        ord_before = W.hz && order_bad();
         if ((op == "sets" || op == "seti") && w.size() > 1)
         {
             int i = atoi(w[1].c_str());
@@ -945,7 +971,7 @@ static void run_op(const std::vector<std::string> &w, const std::string &line, h
     run_op_inner(w, line, o_);
     if (mgr && W.t)
     {
-        if (W.tdirty && (tie_before || any_tie())) W.tainted = true;
+        if ((W.tdirty && (tie_before || any_tie())) || (W.hz && (ord_before || order_bad()))) W.tainted = true;
         if (W.tainted)
         {
             // the order among equal deadlines (left open by the property) decides what happens from here on:
@@ -980,17 +1006,20 @@ static void run_op_inner(const std::vector<std::string> &w, const std::string &,
         {
             W_.t = new impl<spec_u32>(atoi(w[2].c_str()), -1);
             W_.oracle_on = w[1] == "u";
+            W_.hz = w[1] == "U";
         }
         else if (w[1] == "i" || w[1] == "I")
         {
             // timer_spec<int32_t>: a signed 32-bit tick counter (wraps after 2^31 ticks)
             W_.t = new impl<spec_i32>(atoi(w[2].c_str()), -1);
             W_.oracle_on = w[1] == "i";
+            W_.hz = w[1] == "I";
         }
         else if (w[1] == "v" || w[1] == "V")
         {
             W_.t = new impl<spec_u32s>(atoi(w[2].c_str()), -1);
             W_.oracle_on = w[1] == "v";
+            W_.hz = w[1] == "V";
         }
         else if (w[1] == "l")
         {
